@@ -341,6 +341,7 @@ func (r *RefCount[T]) Access(ctx context.Context, cb func(ctx context.Context, v
 
 // removeRef removes a reference and shuts down if no refs remain.
 func (r *RefCount[T]) removeRef(ref *Ref[T]) {
+	verifPoint(3, ref)
 	r.mtx.Lock()
 	lenBefore := len(r.refs)
 	delete(r.refs, ref)
@@ -409,6 +410,7 @@ func (r *RefCount[T]) startResolveLocked() {
 func (r *RefCount[T]) resolve(ctx context.Context, waitCh, doneCh chan struct{}, nonce uint32) {
 	defer close(doneCh)
 
+	verifPoint(0, nonce)
 	if waitCh != nil {
 		select {
 		case <-ctx.Done():
@@ -420,6 +422,7 @@ func (r *RefCount[T]) resolve(ctx context.Context, waitCh, doneCh chan struct{},
 	released := func() {
 		resolveAfterRelease := func(lock bool) {
 			if lock {
+				verifPoint(2, nonce)
 				r.mtx.Lock()
 			}
 			defer r.mtx.Unlock()
@@ -438,6 +441,7 @@ func (r *RefCount[T]) resolve(ctx context.Context, waitCh, doneCh chan struct{},
 
 	val, valRel, err := r.resolver(ctx, released)
 
+	verifPoint(1, nonce)
 	r.mtx.Lock()
 	defer r.mtx.Unlock()
 
